@@ -4,7 +4,7 @@ from ..proto import f2b, b, cells, oi
 NAME = "rainfall_partition"
 
 
-def encode(reg, args, result):
+def encode(reg, args, result, after=None):
     (precip, th, day_sub, sr_inhb, bunds, z_bund, cn_adj_pct, soil_cn, adj_cn, z_cn, n_comp,
      prof) = args
     pid = reg.get(prof)
@@ -23,3 +23,19 @@ def trim_reply(reply: str) -> str:
     """drop ghost outputs (effective cn) before comparison"""
     t = reply.split()
     return " ".join(t[:3]) if not reply.startswith("E") else reply
+
+
+def fuzz(rng):
+    from .. import gen
+    import copy
+    p = gen.rand_profile(rng)
+    th = gen.rand_th(rng, p)
+    zcn = float(rng.choice(p.dzsum)) if rng.random() < 0.7 else float(rng.choice([0.3, 0.25, 0.12, 0.33]))
+    zcn = min(zcn, float(p.dzsum[-1]))
+    return (float(rng.choice([0, 0.5, 5, 20, 80, 300]) * rng.random()), th, int(rng.integers(0, 4)),
+            bool(rng.random() < 0.1), bool(rng.random() < 0.2), float(rng.choice([0, 0.0005, 100.])),
+            float(rng.choice([0, -10, 10, 30])), float(rng.choice([46, 61, 72, 77])),
+            int(rng.random() < 0.7), zcn, len(p.dz), copy.deepcopy(p))
+
+
+from aquacrop.solution.rainfall_partition import rainfall_partition as FUNC  # noqa: E402
